@@ -25,16 +25,19 @@ T = {
          "cmake_parse_arguments call directly in the body (not in nested/sibling/later definitions). Tie: kwargs-profile modules with random trigger strings "
          "and strip patterns.", "re.sub enters the theorems as an arbitrary function; Python computes it for the correspondence.",
          "Lean 4 refinement proof + differential correspondence"),
- 'C04': ("Layout invariance: T_agg's right-hand side does not mention layout; C01_clean_reindent (doc-block indentation); the scanner/parser round "
-         "trip T_lex/T_parse over the printer `Module.render` (see evidence for which stage is proved); C06_lex_lossless/tok_wf. Tie: one abstract module under "
-         "k layouts + CRLF through the real pipeline, byte comparison; scanner model vs ANTLR incl. skipped tokens.",
+ 'C04': ("C04_layout: for all valid modules m1, m2 related by LayoutVariant (same lower-cased command names and parse-tree arguments, doccomments with "
+         "the same cleaned text — any separators, comments, doc-block indentation, name case), pipeline(render m1) = pipeline(render m2); built from "
+         "T_lex/T_parse/T_roundtrip (printer -> scanner -> parser), T_agg and C01_clean_reindent; C04_token_sequence for the literal 'same token "
+         "sequence' sentence. CRLF: C04_crlf_partial (doc cleaning level only). Tie: one abstract module under k layouts + CRLF through the real "
+         "pipeline, byte comparison; scanner model vs ANTLR incl. skipped tokens.",
          "ANTLR lexer semantics modelled by hand; CRLF statement checked by correspondence (norm = drop \\r and blank lines).",
-         "Lean 4 proof (round trip printer→scanner→parser, partial) + differential correspondence on layout families"),
- 'C05': ("Acceptance and argument boundaries: round trip T_parse/T_lex over a reference syntax written from cmake-language(7) (stage proved: see evidence), "
-         "C06_parse_exact (no token deleted or invented). Tie: real parse tree vs abstract module; CMake 3.25's own argument lists (--trace-format=json-v1) as "
+         "Lean 4 proof (round trip printer→scanner→parser→stack machine) + differential correspondence on layout families"),
+ 'C05': ("T_pipeline / C05_accepted: every valid (Module.valid), well-formed module of the reference syntax written from cmake-language(7) is processed "
+         "to completion, pipeline(render m) = page of the structural specification; C05_boundaries: the commands CMinx sees are exactly the abstract "
+         "module's commands with the same argument boundaries; C06_parse_exact. Tie: real parse tree vs abstract module; CMake 3.25's own argument lists (--trace-format=json-v1) as "
          "independent reference; shipped CMake modules; known findings K2, K3 delimit the guarantee.",
          "Legacy unquoted arguments, `[=` degenerate arguments, recursion-limit nesting, non-UTF-8 input are outside the guarantee.",
-         "Lean 4 proof (round trip, partial) + differential correspondence + CMake trace oracle"),
+         "Lean 4 proof (round trip + refinement) + differential correspondence + CMake trace oracle"),
  'C06': ("C06_lex_lossless (every source character lies in exactly one token), C06_tok_wf, fault-class theorems for every reached position "
          "(unterminated quote, bad escape, backslash at EOF, unterminated bracket comment, extra/missing parenthesis, bare word), C06_no_skip / "
          "C06_fault_fatal (no output unless the whole file lexed and parsed). Tie: every fault kind at EVERY position outside comments of generated "
